@@ -1,6 +1,7 @@
 """C03 - a Brownian object is one path: additivity, Chen's relation, zero-length queries."""
 from props.base import Job, T1, T2, T5, T6
 from props import tree_jobs as TJ
+from props import agg_jobs as AJ
 from props import wrapper_jobs as WJ
 
 LEVEL = 'proof'
@@ -20,7 +21,7 @@ def jobs(tier):
     P = 'C03'
     return [TJ.job_split_algebra(P, ('chen',)), TJ.job_pure_lemmas(P),
             TJ.make(P, 'split_exact', True), TJ.make(P, 'split', True), TJ.make(P, 'loc_inner', True), TJ.make(P, 'loc', True),
-            TJ.make(P, 'call', True), TJ.make(P, 'loc_inner', False), WJ.job_wrappers(P)]
+            TJ.make(P, 'call', True), TJ.make(P, 'loc_inner', False), WJ.job_wrappers(P), AJ.job_aggregation(P)]
 
 
 def canaries(tier):
